@@ -193,3 +193,34 @@ pub fn read_lines(name: &str) -> Vec<Vec<u8>> {
     v.dedup();
     v
 }
+
+/// Run a child process to completion, or kill it after `secs` seconds: (output, timed out).
+/// (A command line tool that never returns is an outcome to record, not a reason to hang.)
+pub fn output_within(cmd: &mut std::process::Command, secs: u64) -> (std::process::Output, bool) {
+    use std::io::Read;
+    use std::process::Stdio;
+    let mut child = cmd.stdin(Stdio::null()).stdout(Stdio::piped()).stderr(Stdio::piped()).spawn().expect("spawn");
+    // drain the pipes on threads so that a chatty child cannot block on a full pipe
+    let mut so = child.stdout.take().unwrap();
+    let mut se = child.stderr.take().unwrap();
+    let ho = std::thread::spawn(move || { let mut v = vec![]; let _ = so.read_to_end(&mut v); v });
+    let he = std::thread::spawn(move || { let mut v = vec![]; let _ = se.read_to_end(&mut v); v });
+    let t0 = std::time::Instant::now();
+    let mut timed_out = false;
+    let status = loop {
+        match child.try_wait().expect("wait") {
+            Some(st) => break st,
+            None => {
+                if t0.elapsed().as_secs() >= secs {
+                    timed_out = true;
+                    let _ = child.kill();
+                    break child.wait().expect("wait");
+                }
+                std::thread::sleep(std::time::Duration::from_millis(2));
+            }
+        }
+    };
+    let stdout = ho.join().unwrap_or_default();
+    let stderr = he.join().unwrap_or_default();
+    (std::process::Output { status, stdout, stderr }, timed_out)
+}
